@@ -103,7 +103,60 @@ func genSrcTokens(repo string) (string, error) {
 	}
 	fmt.Fprintf(&b, "Definition SrcTokens_translator_ok := %v.\n", ok)
 	fmt.Fprintf(&b, "Definition edf_requeue_asks_weightfunc := %v.\n", edfRequeueShape(repo))
+	fmt.Fprintf(&b, "Definition edf_refresh_adds_every_host := %v.\n", edfRefreshShape(repo))
 	return b.String(), nil
+}
+
+// edfRefreshShape: EdfLoadBalancer.refresh queues EVERY host of the host set, whatever its health
+// (Model/EdfHealth.v): the only Add call of refresh is the single statement of the hosts.Range callback besides
+// `return true`, not under any condition; and ChooseHost takes up to `total` scheduler picks, returning the first
+// healthy candidate.
+func edfRefreshShape(repo string) bool {
+	_, f, err := ParseGoFile(repo, "pkg/upstream/cluster/loadbalancer.go")
+	if err != nil {
+		return false
+	}
+	fd := FindFunc(f, "EdfLoadBalancer", "refresh")
+	ch := FindFunc(f, "EdfLoadBalancer", "ChooseHost")
+	if fd == nil || ch == nil {
+		return false
+	}
+	str := func(n ast.Node) string {
+		var sb strings.Builder
+		printer.Fprint(&sb, token.NewFileSet(), n)
+		return strings.Join(strings.Fields(sb.String()), " ")
+	}
+	nAdd, shapeOK := 0, false
+	ast.Inspect(fd.Body, func(n ast.Node) bool {
+		if ce, ok := n.(*ast.CallExpr); ok {
+			if se, ok := ce.Fun.(*ast.SelectorExpr); ok && se.Sel.Name == "Add" {
+				nAdd++
+			}
+			if se, ok := ce.Fun.(*ast.SelectorExpr); ok && se.Sel.Name == "Range" && len(ce.Args) == 1 {
+				if fl, ok := ce.Args[0].(*ast.FuncLit); ok && len(fl.Body.List) == 2 {
+					a := str(fl.Body.List[0])
+					b := str(fl.Body.List[1])
+					shapeOK = a == "lb.scheduler.Add(host, lb.hostWeightFunc(host))" && b == "return true"
+				}
+			}
+		}
+		return true
+	})
+	// ChooseHost: `for i := 0; i < total; i++ { candidate = lb.scheduler.NextAndPush(lb.hostWeightFunc).(types.Host); if candidate != nil && candidate.Health() { return candidate } }`
+	loopOK := false
+	ast.Inspect(ch.Body, func(n ast.Node) bool {
+		fs, ok := n.(*ast.ForStmt)
+		if !ok || fs.Cond == nil || len(fs.Body.List) != 2 {
+			return true
+		}
+		if str(fs.Cond) == "i < total" &&
+			str(fs.Body.List[0]) == "candidate = lb.scheduler.NextAndPush(lb.hostWeightFunc).(types.Host)" &&
+			str(fs.Body.List[1]) == "if candidate != nil && candidate.Health() { return candidate }" {
+			loopOK = true
+		}
+		return true
+	})
+	return nAdd == 1 && shapeOK && loopOK
 }
 
 // edfRequeueShape: edf.go re-queues the popped entry with the weight the weight function answers NOW
